@@ -435,7 +435,13 @@ CONSTRUCTS = {
     'boxmix': ('\\mbox{b \\textbf{c} $f$ ', '}'),
     # the LAST cell of a row: its group is closed by the row end; the probe sits in the first cell of the next row
     'lastcell': ('\\begin{tabular}{ll}u&', None),
+    # user-defined environments: begin-code that expands to nothing, begin/end code with text, an empty argument
+    'uenv0': ('\\begin{zzenvE}', '\\end{zzenvE}'),
+    'uenv1': ('\\begin{zzenvT}', '\\end{zzenvT}'),
+    'uenvA': ('\\begin{zzenvA}{}', '\\end{zzenvA}'),
 }
+TEXT_OPEN = {'boxmix': 'bcf', 'lastcell': 'u', 'uenv1': 'eb'}
+TEXT_CLOSE = {'uenv1': 'ee'}
 # inside math only these may nest (text constructs in math are not well-formed LaTeX)
 IN_MATH = ('brace', 'bgroup', 'boxmix')
 
@@ -478,7 +484,8 @@ def level_actions(mask, lvl):
 
 PROBE = 'p\\zzA\\zzB\\zzC\\zz@ x\\ifzzq T\\else F\\fi.'
 PRE_B = ('\\def\\zzA{A0}\\def\\zzB{B0}\\def\\zzKa{Ka}\\def\\zzKb{Kb}\\def\\zzC{C0}\\def\\zz{Z}\\newif\\ifzzq '
-         '\\makeatletter\\def\\zz@{W}\\makeatother ')
+         '\\makeatletter\\def\\zz@{W}\\makeatother '
+         '\\newenvironment{zzenvE}{}{}\\newenvironment{zzenvT}{eb}{ee}\\newenvironment{zzenvA}[1]{#1}{}')
 
 
 def program_b(chain, masks, in_math_ok=True):
@@ -516,7 +523,7 @@ def program_b(chain, masks, in_math_ok=True):
             for s in stack:
                 s['q'] = bool(lvl % 2)
         body += PROBE
-        exp.append(('bcf' if c == 'boxmix' else 'u' if c == 'lastcell' else '') + probe_text(st))
+        exp.append(TEXT_OPEN.get(c, '') + probe_text(st))
     for i in reversed(range(len(chain))):
         c = chain[i]
         st = stack.pop()
@@ -531,7 +538,7 @@ def program_b(chain, masks, in_math_ok=True):
         else:
             body += CONSTRUCTS[c][1]
         body += PROBE
-        exp.append(probe_text(st))
+        exp.append(TEXT_CLOSE.get(c, '') + probe_text(st))
     return src + body, ''.join(exp)
 
 
@@ -632,6 +639,8 @@ def run(tier, seed, rep):
                  [([c], (0, 1 | 8, 2 | 16, 31)) for c in chains if len(c) == 4]
     else:
         blocks = [([c], maskset) for c in chains]
+    # frames that hold only an alias and/or a category change (no definition of their own)
+    blocks += [([c], (0, 4, 8, 12)) for c in chains if len(c) <= (2 if quick else 3)]
     blocks = core.rotate(blocks, seed)
     core.merge_all(run_block_b, blocks, rep, chunksize=4)
     rep.merge(run_block_frames(None))
